@@ -697,7 +697,20 @@ func c05Gen(m *wdMon, blk, nBlocks, idx int, addrPool []addrCase) {
 	}
 	if cl := m.idsIn("canceling"); len(cl) > 0 && r.Intn(2) == 0 {
 		n := 1 + r.Intn(len(cl))
-		if op := m.approveOp(cl[:n], ""); op != nil {
+		ids, perturb := cl[:n], ""
+		switch r.Intn(8) {
+		case 0: // the same id twice in one batch
+			ids, perturb = append(append([]uint64{}, ids...), ids[0]), "duplicate-id"
+		case 1: // an id nobody ever requested
+			ids, perturb = append(append([]uint64{}, ids...), 900_000+uint64(blk)), "unknown-id"
+		case 2: // more ids than a batch may carry
+			ids = append([]uint64{}, ids...)
+			for len(ids) < 33 {
+				ids = append(ids, ids[0])
+			}
+			perturb = "thirty-three-ids"
+		}
+		if op := m.approveOp(ids, perturb); op != nil {
 			b.ops = append(b.ops, op)
 		}
 	} else if r.Intn(6) == 0 {
